@@ -247,6 +247,23 @@ def dispatch(R, P):
             bad.append("initial byte 0x%02X (major type %d, additional information %d) is reported through callbacks->%s at line %d, expected %s" % (K, K >> 5, K & 31, name, e.get("loc", [0])[0], sorted(expected_callbacks(K)) or "no callback"))
     R.check(not bad and len(seen) >= 200, "STREAM", "dispatch:callback-matches-initial-byte", "%s in cbor_stream_decode()" % STREAM, "%d initial bytes each report through the callback of their major type and width" % len(seen),
             "the decoder reports an item as another kind than its initial byte says: %s" % "; ".join(bad[:3]))
+    # ... and every item that is complete is reported: between the case label and the callback stands only the test that
+    # the bytes are there (an empty string, length 0, is an item like any other)
+    extra, ncb = [], 0
+    for e in f.indirect_calls():
+        via = RU.indirect_via(f, e.node)
+        if not via or via[0] != "cbor_callbacks":
+            continue
+        ncb += 1
+        for c_, p_, b_ in RU.guards(f, e):
+            if f.blocks[b_].term == "switch" if hasattr(f.blocks.get(b_), "term") else False:
+                continue
+            cc, neg = RU.cond_call(f, c_)
+            if cc is not None and cc.get("callee") == "claim_bytes" and (p_ != neg):
+                continue
+            extra.append("callbacks->%s at line %d also depends on `%s` being %s" % (via[1], e.line, f.show(c_)[:60], "true" if p_ else "false"))
+    R.check(not extra and ncb >= 40, "STREAM", "dispatch:every-complete-item-reported", "%s in cbor_stream_decode()" % STREAM, "%d callback sites depend on nothing but the claim of their bytes" % ncb,
+            "a complete item is consumed without being reported: %s (the decoder advances past it, the consumer never sees it - e.g. an empty byte/text string)" % "; ".join(extra[:3]))
     badl, nl = [], 0
     for e, st, a0 in getattr(num, "loader_calls", []):
         K = _case_of(st)
@@ -296,6 +313,7 @@ def stream_bounds(R, P):
 
 
 MUTANTS = [
+    {"name": "empty-strings-not-reported", "file": STREAM, "expect": "STREAM", "old": "    if (claim_bytes(length, source_size, &result)) {                       \\\n      callbacks->callback_name(context, source + 1 + source_extra_offset,  \\", "new": "    if ((length) > 0 && claim_bytes(length, source_size, &result)) {       \\\n      callbacks->callback_name(context, source + 1 + source_extra_offset,  \\"},
     {"name": "two-byte-text-reported-as-bytes", "file": STREAM, "expect": "STREAM", "old": "      READ_CLAIM_INVOKE(string, _cbor_load_uint16, 2);", "new": "      READ_CLAIM_INVOKE(byte_string, _cbor_load_uint16, 2);"},
     {"name": "uint64-loader-swaps-two-bytes", "file": LOADERS, "expect": "STREAM", "old": "         ((uint32_t) * (source + 5) << 0x10) +\n         ((uint16_t) * (source + 6) << 0x08) + (uint8_t) * (source + 7);", "new": "         ((uint32_t) * (source + 6) << 0x10) +\n         ((uint16_t) * (source + 5) << 0x08) + (uint8_t) * (source + 7);"},
     {"name": "claim-comparison-can-wrap", "file": STREAM, "expect": "STREAM", "old": "  if (required > (provided - result->read)) {", "new": "  if (result->read + required > provided) {"},
